@@ -55,6 +55,9 @@ PROBES = [
     ("probe:repeated-keyword", "def f(a: int) -> None: ...\nf(a=1, a=2)\n", [(3, 12)]),
     ("probe:except-as", "try:\n    pass\nexcept () as e:\n    pass\n", [(3, 12)]),
     ("probe:match-39", "x = 1\nmatch x:\n    case 1: pass\n", [(3, 9), (3, 10)]),
+    ("probe:arg-name-literal", "from typing import Callable\nfrom mypy_extensions import Arg\ndef a(f: Callable[[Arg(int, 0)], int]) -> None: ...\n", [(3, 12)]),
+    ("probe:one-constraint", "type B[T: (int,)] = list[T]\nb: B[str]\n", [(3, 12)]),
+    ("probe:raise-semicolon", "def f() -> None:\n    try:\n        pass\n    except Exception:\n        raise ;\n", [(3, 12)]),
     ("probe:star-index-310", "def f(*args: *tuple[int, ...]) -> None: pass\n", [(3, 10), (3, 11)]),
 ]
 
@@ -245,6 +248,11 @@ def status_default_only(ctx, st, key, src, ver, dmsgs, nmsgs, gates, detail) -> 
                 "indentation that mixes tabs and spaces: the default front end (CPython's tokenizer, tab = next multiple of 8) blocks with %r, "
                 "the native front end measures it differently and accepts the file" % texts[0], detail)
         return
+    if texts and all("Expected string literal for argument name, got" in t for t in texts):
+        _report(ctx, st, {"class": "native-no-argument-name-literal-check"},
+                "`Callable[[Arg(int, 0)], int]`: the default front end's TypeConverter blocks with %r; the native reader "
+                "(nativeparse.extract_arg_name) accepts a non-string argument name silently" % texts[0], detail)
+        return
     if not host_parses(src):
         # syntax the host interpreter cannot read: F11b when the native front end accepts it for this target
         req = newer_than_host(src, ver)
@@ -303,7 +311,7 @@ LITERAL_N = re.compile(r"Invalid type: Literal\[\.\.\.\] cannot contain arbitrar
 BYTES_IN_INDEX = re.compile(r"""\[\s*[bB][rR]?["']|\[\s*[rR][bB]["']""")
 # classes that change what a name *means* (not merely where a message points): further differences in the same
 # program are consequences and are attributed to them
-ROOT_CLASSES = {"bytes-literal-as-forward-reference", "native-type-ignore-invalid-tag", "native-type-ignore-comment-tail",
+ROOT_CLASSES = {"bytes-literal-as-forward-reference", "native-no-constrained-types-count-check", "native-type-ignore-invalid-tag", "native-type-ignore-comment-tail",
                 "native-dunder-name-not-positional-only", "inline-config-comment-inside-string-literal"}
 
 
@@ -598,6 +606,8 @@ def leftover_line(lines, ln, ds, ns, src) -> tuple[dict, str]:
     if len(ds) == len(ns) and ds and all(re.match(r'Name "\w+" is not defined', t) for t in dt) and \
             all(t == "Invalid type comment or annotation  [valid-type]" for t in nt) and re.search(r"""['"]\w+['"]\s*\[""", line):
         return {"class": "subscripted-string-annotation-message"}, what + " — a string literal subscripted inside an annotation"
+    if ds and all(t.startswith("Type variable must have at least two constrained types") for t in dt) and not ns:
+        return {"class": "native-no-constrained-types-count-check", "root": True}, what
     dunder = re.compile(r'Unexpected keyword argument "(__\w*[A-Za-z0-9])" for ')
     if ds and not ns and all(dunder.search(t) and not dunder.search(t).group(1).endswith("__") for t in dt):
         return {"class": "native-dunder-name-not-positional-only", "root": True}, what
